@@ -4,12 +4,21 @@ From SH Require Import Common.Wrap Routing.Model Gen.PipelineConsts Pipeline.Mod
 Import ListNotations.
 Open Scope Z_scope.
 
-(* what the translator read in the aggregator's source is what the model assumes about the answers *)
-Lemma gen_answers_tie ok :
-  gen_insert_discard ok = ok /\ gen_stale_discard ok = true /\ gen_full_discard ok = false /\
+(* what the translator read in the aggregator's source, as the agent sees it on the wire: after an insert the answer is
+   an acknowledgement iff the INSERT succeeded, and an rpc error otherwise (whatever discard bit accompanies the error);
+   a full conveyor answers without discard; stale historic buckets and the early returns discard; shutdown hijacks *)
+Lemma gen_answers_tie ok r :
+  insert_answer ok r = (if ok then GvAck r else GvError r) /\ full_answer r = GvKeep r /\
+  gen_stale_discard ok = true /\
   forallb (fun x => x) gen_undecodable_discard = true /\ gen_old_agent_discard = true /\ gen_wrong_shard_discard = true /\
   gen_shutdown_discard = false /\ gen_shutdown_hijacks = true.
-Proof. repeat split. Qed.
+Proof. destruct ok; repeat split. Qed.
+
+(* the discard bit written into a response that is sent together with an rpc error is invisible: whatever the source
+   computes for it, a failed insert reaches the agent as an error *)
+Lemma failed_insert_is_error_whatever_flag (flag : bool -> bool) r :
+  (if negb false && gen_insert_sends_err then GvError r else if flag false then GvAck r else GvKeep r) = GvError r.
+Proof. reflexivity. Qed.
 
 Lemma store_of_rev l k : In k (store_of (rev l)) <-> In k (store_of l).
 Proof.
